@@ -562,6 +562,13 @@ class MarkdownNormalizer(Renderer):
         # A (setext) heading may span several source lines, an ATX heading cannot: join
         # soft line breaks with a space (hard breaks, "\\\n", are kept).
         children_content = re.sub(r"(?<!\\)\n", " ", children_content)
+        # A run of "#" at the end of the text (alone or after a space) would be read as the
+        # optional closing sequence of an ATX heading and disappear: escape it.
+        closing = re.search(r"(?:^|(?<=[ \t]))#+$", children_content)
+        if closing and not children_content[: closing.start()].endswith("\\"):
+            children_content = (
+                children_content[: closing.start()] + "\\" + children_content[closing.start() :]
+            )
         self._in_heading = False
         self._current_inline_text = ""
         # If heading ends with hard break, don't add extra newline
